@@ -218,6 +218,70 @@ func checkC21(r *core.Run, p *core.Program) {
 		}
 	}
 
+	// ---- shadowed fields of embedded structs ------------------------------------------------------------------
+	r.Rule("C21.shadowing", "both functions that flatten embedded structs into their parent (the marshaling side's extractFields and the unmarshaling side's makeGeneratorDescs: the ones that recurse on reflect.StructField.Anonymous) resolve clashes of field names by depth, as Go does: somewhere in the function or in what it calls, the lengths of two fields' index paths are compared. Without it a field shadowed by an outer field is written as a second map entry with the same key (a document the decoder rejects) and filled from the wrong entry.")
+	for _, spec := range []struct{ rel, fn string }{{"iterator", "extractFields"}, {"builder", "makeGeneratorDescs"}} {
+		f := findFn(p, spec.rel, spec.fn)
+		if f == nil {
+			r.Undecided("C21.shadowing", spec.rel+"."+spec.fn)
+			continue
+		}
+		finfo := f.Pkg.TypesInfo
+		recurses := false
+		ast.Inspect(f.Decl.Body, func(n ast.Node) bool {
+			if sel, ok := n.(*ast.SelectorExpr); ok && sel.Sel.Name == "Anonymous" {
+				recurses = true
+			}
+			return true
+		})
+		comparesDepth := func(body ast.Node, binfo *types.Info) bool {
+			found := false
+			ast.Inspect(body, func(n ast.Node) bool {
+				be, ok := n.(*ast.BinaryExpr)
+				if !ok {
+					return true
+				}
+				switch be.Op {
+				case token.LSS, token.GTR, token.LEQ, token.GEQ, token.EQL, token.NEQ:
+				default:
+					return true
+				}
+				isDepth := func(e ast.Expr) bool {
+					// len(x.IndexPath), len(path), or a map entry that holds such a length
+					yes := false
+					ast.Inspect(e, func(k ast.Node) bool {
+						if c, ok := k.(*ast.CallExpr); ok && len(c.Args) == 1 {
+							if id, ok := c.Fun.(*ast.Ident); ok && id.Name == "len" {
+								if sl, ok := binfo.TypeOf(c.Args[0]).Underlying().(*types.Slice); ok {
+									if b, ok := sl.Elem().Underlying().(*types.Basic); ok && b.Kind() == types.Int {
+										yes = true
+									}
+								}
+							}
+						}
+						return true
+					})
+					return yes
+				}
+				if isDepth(be.X) || isDepth(be.Y) {
+					found = true
+				}
+				return true
+			})
+			return found
+		}
+		ok := comparesDepth(f.Decl.Body, finfo)
+		inspectCalls(finfo, f.Decl.Body, func(call *ast.CallExpr, c *types.Func) {
+			if c != nil && c != f.Obj && c.Pkg() == f.Pkg.Types {
+				if hd := p.FuncDecl(c); hd != nil && hd.Body != nil && comparesDepth(hd.Body, finfo) {
+					ok = true
+				}
+			}
+		})
+		r.Check("C21.shadowing", spec.rel+"."+spec.fn+"|name clashes resolved by depth", f.Decl.Pos(), recurses && ok,
+			spec.fn+" flattens embedded structs but never compares the depth (index path length) of two fields: struct{Inner; A int} with Inner{A,B int} is marshaled with the key \"a\" twice - a document the decoder rejects as having a duplicate key - and unmarshaled from whichever entry comes last")
+	}
+
 	// ---- index path -----------------------------------------------------------------------------------------
 	checkIndexPath(r, p, "C21.index-path")
 
